@@ -21,6 +21,9 @@ SPECIAL["grad_shared_transformed_untransformed"] = doc(f'<defs>{GRAD}</defs><g t
 SPECIAL["grad_user_maybe_invisible"] = doc(f'<defs>{GRAD}</defs>' + rr(' fill="url(#g)" opacity="{o1}"', ' fill="red"')[0] + rr("", ' fill="red"')[1])
 SPECIAL["grad_shared_visible_and_maybe_invisible"] = doc(f'<defs>{GRAD}</defs>' + rr(' fill="url(#g)" opacity="{o1}"')[0] + b)
 SPECIAL["grad_user_zero_area"] = doc(f'<defs>{GRAD}</defs><path id="a" d="M{{x1}},{{y1}} L{{x2}},{{y2}}" fill="url(#g)"/>' + rr("", ' fill="red"')[1])
+# sole user of a gradient sits in a translucent group that collapses (its sibling never paints): the
+# product of the two opacities may round to 0 only AFTER the group was flattened
+SPECIAL["grad_user_in_collapsing_group"] = doc(f'<defs>{GRAD}</defs><g opacity="{{o1}}">' + rr(' fill="url(#g)" opacity="{o2}"')[0] + '<path d="M{x3},{y3} L{x4},{y4}" fill="green"/></g>' + rr("", ' fill="red"')[1])
 SPECIAL["grad_unused_in_source"] = doc(f'<defs>{GRAD}<linearGradient id="unused">{STOPS}</linearGradient></defs>{a}')
 SPECIAL["grad_outside_defs"] = doc(f'{GRAD}<g transform="scale({{s1}})">{a}</g>')
 SPECIAL["id_shape_stroked"] = doc(rr(' fill="red" stroke="blue" stroke-width="{s1}"')[0] + rr("", ' fill="green"')[1])
